@@ -10,12 +10,13 @@ import random
 from . import core, inputs, c14
 
 
-def histories(observers, maxlen, check):
-    cfg = ("SPECIFICATION Spec\nCONSTANT Observers <- MCObs\nCONSTANTS MaxLen = %d WithFormat = FALSE\n"
+def histories(observers, maxlen, check, faulty=()):
+    cfg = ("SPECIFICATION Spec\nCONSTANT Observers <- MCObs\nCONSTANT Faulty <- MCFaulty\nCONSTANTS MaxLen = %d WithFormat = FALSE\n"
            "INVARIANTS Pure SameAsFresh\nPROPERTIES StructureKept FormatIdempotent\nCHECK_DEADLOCK FALSE\n" % maxlen)
-    mc = "---- MODULE MCPipeline ----\nEXTENDS Pipeline\nMCObs == {%s}\n====\n" % ", ".join('"%s"' % o for o in observers)
+    mc = ("---- MODULE MCPipeline ----\nEXTENDS Pipeline\nMCObs == {%s}\nMCFaulty == {%s}\n====\n"
+          % (", ".join('"%s"' % o for o in observers), ", ".join('"%s"' % o for o in faulty)))
     r = core.tlc("MCPipeline", cfg, files={"MCPipeline.tla": mc})
-    check.add_tlc("Pipeline(observers=%d,maxlen=%d)" % (len(observers), maxlen), r)
+    check.add_tlc("Pipeline(observers=%d,faulty=%d,maxlen=%d)" % (len(observers), len(faulty), maxlen), r)
     return [o["hist"] for o in r.out if "hist" in o]
 
 
@@ -30,6 +31,8 @@ def run(tier):
         hs = histories(["print", "dump11", "traverse", "resolve"], 5, check)
         hs += histories(["print", "dump00", "dump10", "dump01", "dump11", "traverse", "resolve"], 3, check)
         nprog = 200
+    # histories with observations whose writer fails part-way (Pipeline.tla's Fault action)
+    hs += [h for h in histories(["print", "dump11"], 3, check, faulty=["print", "dump11"]) if any(x.endswith("!") for x in h)]
     hs = [list(h) for h in sorted(set(tuple(h) for h in hs))]
     progs = inputs.programs(check, tier)
     progs = sorted(progs, key=lambda p: -len(p["src"]))[:nprog // 2] + rng.sample(progs, nprog // 2)
